@@ -14,7 +14,7 @@ from ..oracles import globalarr as ga
 
 PROPERTY = "C05"
 HANG_SECONDS = 900.0
-LINE_BUDGET = 3000000000
+LINE_BUDGET = 20000000000
 RULE = ("(operators) Hypothesis-generated simulation configurations (npts r,v 5-7, theta 6-8, z 7-9; rotational "
         "transform 0 / +-0.8; R0, perturbation modes, integer dt) and generic global fields (equilibrium x (1 + low "
         "modes + seeded noise); generic potentials).  Each grid-level operator (three initialisers, flux-surface "
